@@ -1796,6 +1796,7 @@ class C16(Prop):
         X.createcfg_stream(self, ctx, res, world)
         X.routes_stream(self, ctx, res, world, ctx.scale(120, 1500))
         X.file_stream(self, ctx, res, ctx.scale(150, 3000))
+        X.history_stream(self, ctx, res, world, ctx.scale(150, 3000))
         res.assumptions.append("json.loads(json.dumps(d)) == d for JSON-representable d (third-party parameter)")
         return res
 
@@ -1835,6 +1836,9 @@ class C16(Prop):
     def replay(self, ctx: Ctx, rp: dict, world: Optional[World] = None):
         world = world or self._world()
         kind = rp.get("kind")
+        if kind in ("history", "aliasing"):
+            from harness.props import c16_ext as X
+            return X.replay_history(rp)
         if kind == "route":
             from harness.props import c16_ext as X
             return X.replay_route(world, rp)
@@ -2041,6 +2045,10 @@ def fixed_texts():
         deep = {"k#": [deep]}
     out.append((nl.join(ln + ' # c"' for ln in json.dumps(deep, indent=1).split(nl)), "commented-fixed", deep))
     return out
+
+
+def jsonable_ops(ops):
+    return [list(o) for o in ops]
 
 
 def _register(world: World, t) -> None:
